@@ -38,6 +38,10 @@ def cases(tier, seed):
             c["store1"] = ["files", "files+levels"][(i // 8) % 2]
         if i % 8 == 6:      # ... or is reached through `<symlinked directory>/../plt1`
             c["reach1"] = True
+        if i % 8 == 5:      # the first input's level directories carry another prefix than the default
+            c["level_prefix1"] = ["Lev_", "amr_level_"][(i // 8) % 2]
+        if i % 8 == 1:      # file numbers of five and six digits at one level
+            g["file_id_base"] = "mixed"
         cs.append(c)
     # scale: box indices of six digits - two meshes one cell apart must still be told apart
     for k in range(1 if tier == "quick" else 4):
@@ -132,7 +136,9 @@ def run_case(case, work, rec):
     p1 = os.path.join(work, "plt1")
     fmt = lambda: dict(ref_ratio_extra=rng.choice([0, 0, 1, 3]), trailing_blank=rng.random() < 0.7,
                        close_blank=rng.random() < 0.3, floatfmt=rng.choice(["repr", "17g"]))
-    gen.write_plotfile(m1, p1, **fmt())
+    gen.write_plotfile(m1, p1, **dict(fmt(), level_prefix=case.get("level_prefix1", "Level_")))
+    if case.get("level_prefix1"):
+        rec.count("first_input_with_other_level_prefix")
     if case.get("store1"):
         workload.to_store(p1, level_links="levels" in case["store1"])
         rec.count("first_input_with_linked_binary_files")
